@@ -108,7 +108,7 @@ func TestVerif_C10(t *testing.T) {
 	r := vk.Open()
 	defer r.Close()
 	// forced overlap of two direct-mode handshakes inside the server (see authWindow)
-	for i := 0; i < r.Pick(12, 100); i++ {
+	for i := 0; i < r.Pick(12, 300); i++ {
 		id := fmt.Sprintf("auth-window-%d", i)
 		if !r.Mine(id) {
 			continue
@@ -141,7 +141,7 @@ func TestVerif_C10(t *testing.T) {
 			r.Pass(id)
 		}
 	}
-	n := r.Pick(64, 1200)
+	n := r.Pick(64, 4000)
 	for i := 0; i < n; i++ {
 		id := fmt.Sprintf("session-%d", i)
 		rng := r.Rand("c10", i)
